@@ -61,6 +61,38 @@ func Main(c *hc.Ctx, prop string) error {
 			}()
 		}
 		wg.Wait()
+		// lock-yield runs: pauses inside the pool mutex (monitor only)
+		n2 := c.N(700, 14000)
+		cfgs2 := make([]Config, n2)
+		rngs2 := make([]*hc.RNG, n2)
+		for i := range cfgs2 {
+			cfg := randomConfig(c.Rng)
+			cfg.Max = int64(hc.Pick(c.Rng, 1, 2, 2, 3, 0))
+			cfg.Callers = hc.Pick(c.Rng, 2, 3, 3, 4)
+			cfg.LockYield = hc.Pick(c.Rng, 1, 2, 3)
+			cfg.B.Die, cfg.B.Retry = hc.Pick(c.Rng, 1, 1, 2), hc.Pick(c.Rng, 1, 1, 2)
+			cfg.B.Close = 0
+			cfg.W.Die, cfg.W.FinRetry = hc.Pick(c.Rng, 2, 4, 8), hc.Pick(c.Rng, 2, 4, 8)
+			cfgs2[i] = cfg
+			rngs2[i] = c.Rng.Fork()
+		}
+		outs2 := make([]Outcome, n2)
+		idx2 := make(chan int, n2)
+		for i := 0; i < n2; i++ {
+			idx2 <- i
+		}
+		close(idx2)
+		for w := 0; w < 8; w++ {
+			wg.Add(1)
+			go func() {
+				defer wg.Done()
+				for i := range idx2 {
+					outs2[i] = Execute(cfgs2[i], expectBg, RandomChooser(rngs2[i]))
+				}
+			}()
+		}
+		wg.Wait()
+		outs = append(outs, outs2...)
 		// exhaustive exploration of tiny configurations
 		type tiny struct {
 			cfg  Config
@@ -186,6 +218,8 @@ func parseInput(s string) (Config, []string, error) {
 			fmt.Sscanf(w, "max=%d", &cfg.Max)
 		case strings.HasPrefix(w, "callers="):
 			fmt.Sscanf(w, "callers=%d", &cfg.Callers)
+		case strings.HasPrefix(w, "lock="):
+			fmt.Sscanf(w, "lock=%d", &cfg.LockYield)
 		case strings.HasPrefix(w, "schedule="):
 			script = strings.Split(strings.TrimPrefix(w, "schedule="), ",")
 		}
